@@ -45,6 +45,24 @@ int main(int argc, char** argv)
         int ioa0 = prng_range(0, (1 << (8 * sioa)) - 200), n = 0, refused = 0;
         int limit = TYPES[t].cat == 2 ? 1 : 140;
         for (int k = 0; k < limit && refused < 2; k++) {
+            if (sq && n > 0 && prng_below(3) == 0) {
+                /* continuity: an object whose address is not first+n must be refused (deltas include multiples of 256 / 65536) */
+                static const int D[] = { 1, -1, 2, 256, -256, 255, 65536, -65536, 257 };
+                int pick = prng_below(13); int used2;
+                int wrong = pick < 9 ? ioa0 + n + D[pick] : pick == 9 ? (ioa0 % 256) + n : pick == 10 ? (ioa0 % 65536) + n : pick == 11 ? ((ioa0 + n) % 256) : (ioa0 / 256) + n;
+                if (wrong >= 0 && wrong < (1 << (8 * sioa)) && wrong != ioa0 + n) {
+                    InformationObject w = gen_create(t, wrong, &used2);
+                    uint8_t bf[300]; int bl = a->asduHeaderLength + a->payloadSize; memcpy(bf, a->asdu, bl);
+                    bool r2 = CS101_ASDU_addInformationObject(a, w); checked++;
+                    if (r2 || bl != a->asduHeaderLength + a->payloadSize || memcmp(bf, a->asdu, bl)) {
+                        sprintf(key, "c12-continuity-%s", TYPES[t].tname);
+                        if (first(key)) printf("FAIL %s sizes=%d/%d/%d SQ=1 first address %d, %d elements: object with address %d %s\n", key, scot, sca, sioa, ioa0, n, wrong, r2 ? "was accepted" : "changed the ASDU");
+                        if (r2) { gen_dump(t, w, dumps[n]); ioas[n] = used2; ends[n] = a->payloadSize; n++; }
+                    }
+                    InformationObject_destroy(w);
+                    if (n >= 127) break;
+                }
+            }
             int used; InformationObject io = gen_create(t, sq ? ioa0 + n : (prng_below(2) ? ioa0 + n : (int) rnd_u(8 * sioa)), &used);
             uint8_t before[300]; int blen = a->asduHeaderLength + a->payloadSize; memcpy(before, a->asdu, blen);
             bool r = CS101_ASDU_addInformationObject(a, io); checked++;
@@ -57,6 +75,11 @@ int main(int argc, char** argv)
                 }
             } else {
                 refused++;
+                /* C01 "any element count that fits": a correctly addressed object of the same type with ample room must be accepted */
+                if (n >= 1 && n < 127 && TYPES[t].cat != 2 && blen + 2 * ends[0] + 2 <= P.maxSizeOfASDU) {
+                    sprintf(key, "c01-refused-fitting-%s", TYPES[t].tname);
+                    if (first(key)) printf("FAIL %s sizes=%d/%d/%d max=%d sq=%d: element %d (address %d, first address %d) refused although the ASDU holds only %d of %d octets\n", key, scot, sca, sioa, P.maxSizeOfASDU, sq, n + 1, used, ioas[0], blen, P.maxSizeOfASDU);
+                }
                 if (alen != blen || memcmp(before, a->asdu, blen)) {
                     sprintf(key, "c12-refused-changed-%s", TYPES[t].tname);
                     if (first(key)) { printf("FAIL %s sizes=%d/%d/%d max=%d sq=%d refused addition #%d changed the ASDU: before=", key, scot, sca, sioa, P.maxSizeOfASDU, sq, n + 1); hexs(before, blen); printf(" after="); hexs(a->asdu, alen); printf("\n"); }
